@@ -67,9 +67,9 @@ func (jm *verifJM) execJob(shellCmd string, argv []string, envs map[string]strin
 	jm.h.submit(shellCmd, argv, md, res, fqname, shellName, preflight)
 }
 
-func (jm *verifJM) endJob(md *Metadata)   {}
-func (jm *verifJM) resetMaxJobs()         {}
-func (jm *verifJM) reattach(md *Metadata) {}
+func (jm *verifJM) endJob(md *Metadata)         {}
+func (jm *verifJM) resetMaxJobs()               {}
+func (jm *verifJM) reattach(md *Metadata)       {}
 func (jm *verifJM) refreshResources(bool) error { return nil }
 
 // VerifOptions configures a harness run.
